@@ -1,5 +1,5 @@
 From Coq Require Import List NArith ZArith Bool.
-From SH Require Import base.Pool gen.Extracted_halflock gen.Extracted_registry halflock.Model halflock.Safety registry.Model registry.PcInv registry.Deliver registry.Progress props.C18.
+From SH Require Import base.Pool gen.Extracted_halflock gen.Extracted_registry halflock.Model halflock.Safety registry.Model registry.PcInv registry.Deliver registry.Progress registry.Fair props.C18.
 Import ListNotations.
 Check C18_no_deadlock :
   forall (q_ok s_ok : Z -> bool) os0 ls s fs es,
@@ -31,9 +31,27 @@ Check C18_panic_wedges_nobody :
   kind f = KMut (MRegister sg tag) -> fpc f = MStart -> existsb (Z.eqb sg) forbidden = true ->
   fstep q_ok s_ok s f = (s', f', es) ->
   s' = s /\ (aborted (dt s) || aborted (fb s) = false -> fpc f' = PDone /\ vdt f' = vdt f /\ vfb f' = vfb f).
+Local Open Scope nat_scope.
+Check C18_fair_termination :
+  forall (q_ok s_ok : Z -> bool) os0 ls w es,
+  run q_ok s_ok (sh_init os0, []) ls = (w, es) -> live (fst w) -> (N.of_nat (length (snd w)) <= MAX_GUARDS)%N ->
+  forall rounds, (forall r, In r rounds -> covers (length (snd w)) r) ->
+  (D' w + 75 * length (snd w) <= length rounds)%nat ->
+  all_done (snd (steps q_ok s_ok w (concat rounds))).
+Check C18_round_deliveries :
+  forall (q_ok s_ok : Z -> bool) r w, FInv w ->
+  (D' (steps q_ok s_ok w r) <= D' w)%nat /\
+  forall k g, In k r -> nth_error (snd w) k = Some g -> del_pending g = true -> (D' (steps q_ok s_ok w r) < D' w)%nat.
+Check C18_round_calls :
+  forall (q_ok s_ok : Z -> bool) r w, P2 w ->
+  P2 (steps q_ok s_ok w r) /\ (MM' (steps q_ok s_ok w r) <= MM' w)%nat /\
+  forall k g, In k r -> nth_error (snd w) k = Some g -> enabled (fst w) g -> (MM' (steps q_ok s_ok w r) < MM' w)%nat.
 Print Assumptions C18_no_deadlock.
 Print Assumptions C18_fallback_mutex_uncontended.
 Print Assumptions C18_waits_only_for_deliveries.
 Print Assumptions C18_completes_alone.
 Print Assumptions C18_sticky_seen.
 Print Assumptions C18_panic_wedges_nobody.
+Print Assumptions C18_fair_termination.
+Print Assumptions C18_round_deliveries.
+Print Assumptions C18_round_calls.
